@@ -2,11 +2,11 @@ ID = "C13"
 TESTS = [
     T("nfsfront", "TestC13NFSFrontEndModel",
       {"checks": 500, "shards": 4, "timeout": 300, "steps": 40},
-      {"checks": 10000, "shards": 8, "timeout": 1500, "steps": 60},
+      {"checks": 5000, "shards": 8, "timeout": 1500, "steps": 60},
       env={"GOMAXPROCS": "2", "GOGC": "400"}),
     T("nfsfront", "TestC13NFS41FrontEndModel",
       {"checks": 500, "shards": 4, "timeout": 300, "steps": 40},
-      {"checks": 10000, "shards": 8, "timeout": 1500, "steps": 60},
+      {"checks": 5000, "shards": 8, "timeout": 1500, "steps": 60},
       env={"GOMAXPROCS": "2", "GOGC": "400"}),
 ]
 ASSUMPTIONS = [
